@@ -8,12 +8,12 @@ git -C /repo worktree remove --force $WT 2>/dev/null
 git -C /repo worktree add -q --detach $WT HEAD || exit 1
 trap 'cd /; git -C /repo worktree remove --force $WT' EXIT
 cd $WT
-cp $D $pkg/zz_demo_c_test.go
-if go test -vet=off -count=1 -timeout 300s ./$pkg -run 'TestDemoC' > /tmp/conf_$n.p.log 2>&1; then p=PASS; else p=FAIL; fi
-rm -f $pkg/zz_demo_c_test.go
+cp $D $pkg/zz_demo_x_test.go
+if go test -vet=off -count=1 -timeout 300s ./$pkg -run 'TestDemo' > /tmp/conf_$n.p.log 2>&1; then p=PASS; else p=FAIL; fi
+rm -f $pkg/zz_demo_x_test.go
 if ! git apply $P; then echo "$n APPLY-FAIL"; exit 1; fi
 if ! go build ./... > /tmp/conf_$n.b.log 2>&1; then echo "$n BUILD-FAIL"; exit 1; fi
 if go test -p ${CONF_P:-4} -vet=off -count=1 -timeout 900s ./... > /tmp/conf_$n.t.log 2>&1; then t=SUITE-PASS; else t=SUITE-FAIL:$(grep -h "^FAIL\|^--- FAIL" /tmp/conf_$n.t.log | head -3 | tr '\n' ' '); fi
-cp $D $pkg/zz_demo_c_test.go
-if go test -vet=off -count=1 -timeout 300s ./$pkg -run 'TestDemoC' > /tmp/conf_$n.m.log 2>&1; then m=PASS; else m=FAIL; fi
+cp $D $pkg/zz_demo_x_test.go
+if go test -vet=off -count=1 -timeout 300s ./$pkg -run 'TestDemo' > /tmp/conf_$n.m.log 2>&1; then m=PASS; else m=FAIL; fi
 echo "$n pristine=$p mutant=$m $t"
